@@ -286,7 +286,10 @@ fn complete_prefix(case: &ConvCase, rd: &vcore::wire::Rendered, k: usize) -> usi
     let mut n = 0;
     for (i, r) in rd.ranges.iter().enumerate() {
         let rq = &case.conv.reqs[i];
-        let buffered = matches!(rq.framing, vcore::wire::Framing::Length { n } if n > 0 && n <= 1024) && !rq.expects_continue();
+        // (the body of a request whose Connection header names upgrade is the rest of the connection:
+        // never buffered)
+        let upgrades = rq.headers.iter().any(|h| h.name.eq_ignore_ascii_case("connection") && h.value.to_ascii_lowercase().contains("upgrade"));
+        let buffered = matches!(rq.framing, vcore::wire::Framing::Length { n } if n > 0 && n <= 1024) && !rq.expects_continue() && !upgrades;
         let need = if buffered { r.end } else { r.head_end };
         if need <= k {
             n = i + 1;
@@ -326,7 +329,7 @@ pub fn c15_request_side(cc: &CutCase) -> Verdict {
         // the model's deliveries, cut down to what is complete
         let want: Vec<u32> = exp.delivered.iter().filter(|i| **i < complete).map(|i| cc.case.conv.reqs[*i].id).collect();
         let strictly_inside = rd.ranges.iter().any(|r| k > r.start && k < r.end);
-        for kind in [CutKind::HalfClose, CutKind::Close, CutKind::Reset, CutKind::Aborted, CutKind::BrokenPipe] {
+        for kind in [CutKind::HalfClose, CutKind::Close, CutKind::Reset, CutKind::Aborted, CutKind::BrokenPipe, CutKind::TimedOut] {
             runs += 1;
             // the script is replaced by "send everything", the cut does the rest
             let mut case = cc.case.clone();
@@ -394,9 +397,11 @@ pub fn c15_response_side(cc: &CutCase) -> Verdict {
     let full = run_mem(&case, &MemOpts::default());
     let total = full.client.len();
     let mut runs = 1u64;
-    let ms: Vec<usize> = if cc.every || total <= 300 { (0..=total).collect() } else { (0..=total).step_by((total / 200).max(1)).chain([0usize, 1, total.saturating_sub(1), total]).collect() };
+    // (every offset for response streams up to 3000 bytes; beyond that a sample of some hundred plus
+    // the ends: a sweep over a 70 KB stream would take the part's whole time budget)
+    let ms: Vec<usize> = if (cc.every && total <= 3000) || total <= 300 { (0..=total).collect() } else { (0..=total).step_by((total / if cc.every { 600 } else { 200 }).max(1)).chain([0usize, 1, total.saturating_sub(1), total]).collect() };
     for m in ms {
-        for kind in [std::io::ErrorKind::BrokenPipe, std::io::ErrorKind::ConnectionReset, std::io::ErrorKind::ConnectionAborted] {
+        for kind in [std::io::ErrorKind::BrokenPipe, std::io::ErrorKind::ConnectionReset, std::io::ErrorKind::ConnectionAborted, std::io::ErrorKind::ConnectionRefused] {
             runs += 1;
             let obs = run_mem(&case, &MemOpts { write_fault: Some((m, kind)), ..Default::default() });
             let label = format!("write-{:?}", kind).to_lowercase();
@@ -531,7 +536,7 @@ pub fn parts<'a>(cli: &'a Cli) -> Option<(Vec<Part<'a>>, &'static str, Vec<&'sta
             parts.push(make_part("mem-response-cuts", "CONV/mem", corpus / 2, move || (corpus_strategy(max_stream, false), proptest::bool::weighted(0.6)).prop_map(|(case, every)| CutCase { case, every }), |_| (), |_, c| c15_response_side(c)));
             Some((
                 parts,
-                "part mem-request-cuts: for each corpus conversation every prefix length k of the client's byte stream (region boundaries +-1 and a sample for long streams) x {half-close, close, read error ConnectionReset / ConnectionAborted / BrokenPipe at offset k}: delivered ids are a subset of the requests complete in the prefix (= for half-close, and all answered, then end-of-stream), respond() = Ok, no stall, no panic; part mem-response-cuts: every response byte offset m x write error {BrokenPipe, ConnectionReset, ConnectionAborted} after m bytes: respond() = Ok, no panic; evaluations counts every run; non-trivial: a cut strictly inside a message",
+                "part mem-request-cuts: for each corpus conversation every prefix length k of the client's byte stream (region boundaries +-1 and a sample for long streams) x {half-close, close, read error ConnectionReset / ConnectionAborted / BrokenPipe / TimedOut at offset k}: delivered ids are a subset of the requests complete in the prefix (= for half-close, and all answered, then end-of-stream), respond() = Ok, no stall, no panic; part mem-response-cuts: every response byte offset m x write error {BrokenPipe, ConnectionReset, ConnectionAborted, ConnectionRefused} after m bytes: respond() = Ok, no panic; evaluations counts every run; non-trivial: a cut strictly inside a message",
                 a,
             ))
         }
